@@ -235,7 +235,9 @@ class Run(RunBase):
         if kind == "regrid":
             return {"op": "regrid", "n": rng.choice(self.w["grids"])}
         if kind == "foreign":
-            return {"op": "foreign", "k": rng.randrange(npool), "pt": rng.randrange(16)}
+            return {"op": "foreign", "k": rng.randrange(npool), "pt": rng.randrange(16),
+                    "scribble": rng.random() < 0.5, "x": rng.choice((2.0, -1.0, 0.0)), "accessor": rng.random() < 0.3,
+                    "setrates": rng.random() < 0.5}
         if kind == "badcall":
             return {"op": "badcall", "k": rng.randrange(npool), "kind": rng.choice(BADKINDS)}
         if kind == "fork":
@@ -457,11 +459,32 @@ class Run(RunBase):
         """The user pokes the embedded GF calculator between Lij calls."""
         vals = []
         for calc, _ in self.targets():
-            bFV, bFS, bFSV, bFT0, bFT1, bFT2 = self.pool.arrays(calc, op["k"])
-            calc.GFcalc.SetRates(np.ones_like(bFV), bFV, np.ones_like(bFT0), bFT0)
-            sts = calc.GFstarset
-            PS = sts.states[sts.stars[op["pt"] % len(sts.stars)][0]]
-            vals.append(calc.GFcalc(PS.i, PS.j, PS.dx))
+            if op.get("setrates", True):
+                bFV, bFS, bFSV, bFT0, bFT1, bFT2 = self.pool.arrays(calc, op["k"])
+                calc.GFcalc.SetRates(np.ones_like(bFV), bFV, np.ones_like(bFT0), bFT0)
+                sts = calc.GFstarset
+                PS = sts.states[sts.stars[op["pt"] % len(sts.stars)][0]]
+                vals.append(calc.GFcalc(PS.i, PS.j, PS.dx))
+            else:
+                vals.append(0.0)     # no SetRates: the GF calculator still holds whatever the last Lij miss left
+            if op.get("scribble"):
+                # ... and edits, in place, what the GF calculator's public queries hand out
+                gf = calc.GFcalc
+                if op.get("accessor"):
+                    # the documented accessor "GFcalculator() returns the GF calculator" raises TypeError today
+                    # when called without argument (and resets NGFmax to 0): a failing call; the run carries on
+                    try:
+                        gf = calc.GFcalculator() or gf
+                    except Exception:
+                        self.faults["failing-accessor-call"] += 1
+                for query in (gf.Diffusivity, gf.biascorrection):
+                    try:
+                        arr = query()
+                    except Exception:
+                        continue      # e.g. Diffusivity() before any rates were set raises ValueError: a failing call
+                    if isinstance(arr, np.ndarray) and arr.size:
+                        arr *= float(op.get("x", 2.0))
+                self.faults["scribble-on-GF-calculator-result"] += 1
         self.faults["foreign-SetRates"] += 1
         if self.twin is not None:
             self.checks += 1
